@@ -16,6 +16,25 @@ Theorem bed_decode_encode : forall n (rows pads : list (list Z)),
 Proof. exact decode_encode_lemma. Qed.
 Print Assumptions bed_decode_encode.
 
+(* the same for the other layout the format allows (third magic byte 0, "individual-major": one
+   row of ceil(m/4) bytes per SAMPLE): the layout-independent decoder returns the variant-major
+   code matrix, for any number of variants (incl. counts not divisible by four) and samples *)
+Theorem bed_decode_encode_sample_major : forall n (rows pads : list (list Z)),
+  length pads = n ->
+  Forall (fun r => length r = n /\ Forall code_ok r) rows ->
+  Forall (fun p => Forall code_ok p /\ (3 <= length p)%nat) pads ->
+  decode_bed_any (encode_bed_sample_major rows n pads) n (length rows) = Some rows.
+Proof. exact decode_encode_sample_major_lemma. Qed.
+Print Assumptions bed_decode_encode_sample_major.
+(* and the layout-independent decoder is the variant-major one on variant-major files *)
+Theorem bed_decode_any_variant_major : forall n (rows pads : list (list Z)),
+  length pads = length rows ->
+  Forall (fun r => length r = n /\ Forall code_ok r) rows ->
+  Forall (fun p => Forall code_ok p /\ (3 <= length p)%nat) pads ->
+  decode_bed_any (encode_bed rows pads) n (length rows) = Some rows.
+Proof. intros n rows pads H1 H2 H3. exact (decode_encode_lemma n rows pads H1 H2 H3). Qed.
+Print Assumptions bed_decode_any_variant_major.
+
 (* the documented call mapping: 00 -> [0,0], 01 -> [-1,-1] (missing), 10 -> [1,0], 11 -> [1,1] *)
 Theorem plink_calls_spec : forall code, code_ok code ->
   call code = if code =? 0 then (0, 0) else if code =? 1 then (-1, -1) else if code =? 2 then (1, 0) else (1, 1).
@@ -38,6 +57,11 @@ Proof.
   exists ps. split; [exact E|exact R].
 Qed.
 Print Assumptions plink_rows_once.
+
+Example c16_sample_major_instance :
+  decode_bed_any (encode_bed_sample_major [[0; 1; 2]; [3; 3; 0]; [1; 0; 2]; [2; 2; 2]; [0; 3; 1]] 3 [[3; 3; 3]; [1; 2; 1]; [0; 0; 0]]) 3 5
+  = Some [[0; 1; 2]; [3; 3; 0]; [1; 0; 2]; [2; 2; 2]; [0; 3; 1]].
+Proof. vm_compute. reflexivity. Qed.
 
 Example c16_instance :
   decode_bed (encode_bed [[0; 1; 2; 3; 2]; [3; 3; 0; 1; 0]] [[3; 3; 3]; [1; 2; 1]]) 5 2 = Some [[0; 1; 2; 3; 2]; [3; 3; 0; 1; 0]]
